@@ -90,6 +90,8 @@ def _state(nw, b0, b1, b2, q, att, qa, wk, live, snap, bb, rc, running, t0=5.0):
         ws = [waiter("w1", EVA, EvC, resolved=EVC)]
     elif wk == 3:
         ws = [waiter("w1", EVA, EvC, timed_out=True)]
+    elif wk == 4:
+        ws = [waiter("w1", EVA, EvC, requirements={"k": 1})]   # requirement-bearing: only the has_requirements flag is serialized
     wa.collected_waiters = list(ws)
     if live > 0:
         wa.collected_events = {"buf": [EVB] * live}
@@ -159,19 +161,19 @@ def _invocations(state, step):
     return sorted(items, key=repr)
 
 
-@obligation(quick=200, thorough=600, partitions_quick=[f"nw == {n} and wk == {w}" for n in (1, 2, 3) for w in (0, 1, 2)],
-            partitions_thorough=[f"nw == {n} and wk == {w} and att == {a}" for n in (1, 2, 3) for w in (0, 1, 2, 3) for a in (0, 1, 2)],
+@obligation(quick=200, thorough=600, partitions_quick=[f"nw == {n} and wk == {w}" for n in (1, 2, 3) for w in (0, 1, 2, 4)],
+            partitions_thorough=[f"nw == {n} and wk == {w} and att == {a}" for n in (1, 2, 3) for w in (0, 1, 2, 3, 4) for a in (0, 1, 2)],
             what="serialized form is stable after one round trip: D(S(D(S(s)))) == D(S(s)) (queues with retry info, buffers, waiters, running flag), "
                  "through model_dump -> JSON text -> from_dict_auto",
-            bounds={"num_workers": "1..3", "queue": "0..2 (first entry with attempts 0..2)", "in-progress attempts": "0..2", "waiter": "none/pending/resolved(/timed out)",
+            bounds={"num_workers": "1..3", "queue": "0..2 (first entry with attempts 0..2)", "in-progress attempts": "0..2", "waiter": "none/pending/resolved(/timed out)/pending with requirements",
                     "buffer": "0..2 events"})
 def ob_roundtrip_stable(nw: int, b0: bool, b1: bool, b2: bool, q: int, att: int, qa: int, wk: int, live: int, bb: bool, rc: bool, running: bool) -> bool:
     """
-    pre: _valid(nw, b0, b1, b2, q) and 0 <= att <= 2 and 0 <= qa <= 2 and 0 <= wk <= WKMAX and 0 <= live <= 2
+    pre: _valid(nw, b0, b1, b2, q) and 0 <= att <= 2 and 0 <= qa <= 2 and (0 <= wk <= WKMAX or wk == 4) and 0 <= live <= 2
     pre: q > 0 or qa == 0
     post: _
     """
-    nw, q, att, qa, wk, live = conc(nw, 1, 3), conc(q, 0, 2), conc(att, 0, 2), conc(qa, 0, 2), conc(wk, 0, 3), conc(live, 0, 2)
+    nw, q, att, qa, wk, live = conc(nw, 1, 3), conc(q, 0, 2), conc(att, 0, 2), conc(qa, 0, 2), conc(wk, 0, 4), conc(live, 0, 2)
     b0, b1, b2, bb, rc, running = concb(b0), concb(b1), concb(b2), concb(bb), concb(rc), concb(running)
     wf, st = _state(nw, b0, b1, b2, q, att, qa, wk, live, live, bb, rc, running)
     d1 = native(_trip, st, wf)
@@ -179,21 +181,21 @@ def ob_roundtrip_stable(nw: int, b0: bool, b1: bool, b2: bool, q: int, att: int,
     return _canon(d1) == _canon(d2)
 
 
-WKMAX = B(2, 3)
+WKMAX = B(2, 3)   # plus kind 4 (pending with requirements) in both tiers
 
 
 @obligation(quick=200, thorough=600, partitions_quick=[f"nw == {n} and att == {a}" for n in (1, 2, 3) for a in (0, 1, 2)],
-            partitions_thorough=[f"nw == {n} and att == {a} and wk == {w}" for n in (1, 2, 3) for a in (0, 1, 2) for w in (0, 1, 2, 3)],
+            partitions_thorough=[f"nw == {n} and att == {a} and wk == {w}" for n in (1, 2, 3) for a in (0, 1, 2) for w in (0, 1, 2, 3, 4)],
             what="resume content: rewind_in_progress(D(S(s))) runs/queues exactly the not-yet-completed invocations of s, each with its attempts, "
                  "first-attempt stamp, last exception and recovery counts; buffers, waiters and the running flag survive; REP holds",
             bounds={"num_workers": "1..3", "queue": "0..2 (first entry with attempts 0..2)", "in-progress attempts": "0..2", "recovery counts": "{} / {h:1}"})
 def ob_resume_content(nw: int, b0: bool, b1: bool, b2: bool, q: int, att: int, qa: int, wk: int, live: int, bb: bool, rc: bool, running: bool) -> bool:
     """
-    pre: _valid(nw, b0, b1, b2, q) and 0 <= att <= 2 and 0 <= qa <= 2 and 0 <= wk <= WKMAX and 0 <= live <= 2
+    pre: _valid(nw, b0, b1, b2, q) and 0 <= att <= 2 and 0 <= qa <= 2 and (0 <= wk <= WKMAX or wk == 4) and 0 <= live <= 2
     pre: q > 0 or qa == 0
     post: _
     """
-    nw, q, att, qa, wk, live = conc(nw, 1, 3), conc(q, 0, 2), conc(att, 0, 2), conc(qa, 0, 2), conc(wk, 0, 3), conc(live, 0, 2)
+    nw, q, att, qa, wk, live = conc(nw, 1, 3), conc(q, 0, 2), conc(att, 0, 2), conc(qa, 0, 2), conc(wk, 0, 4), conc(live, 0, 2)
     b0, b1, b2, bb, rc, running = concb(b0), concb(b1), concb(b2), concb(bb), concb(rc), concb(running)
     wf, st = _state(nw, b0, b1, b2, q, att, qa, wk, live, live, bb, rc, running)
     back = native(_trip, st, wf)
